@@ -1,12 +1,43 @@
 (* C01 — property theorems only (each closed by [exact]) + Print Assumptions.
-   The refinement theorems over Scorch/Model.v are added here by Scorch/ProofsCore.v. *)
+   Scorch side: index contents = last-write-wins replay of the introduced batches, for every
+   interleaving of introductions, merge starts, merge finishes and persists accepted by [step]. *)
 From Coq Require Import ZArith List.
-From Verif Require Import Common.Corr.
+From Verif Require Import Scorch.Model Scorch.ProofsCore.
 Import ListNotations.
 Local Open Scope Z_scope.
 
-(* an empty mismatch list means every case passed its check *)
-Theorem C01_corr_sound : forall (A : Type) (chk : A -> bool) start cs,
-  mismatches chk start cs = [] -> forall c, In c cs -> chk c = true.
-Proof. exact @mismatches_nil_all. Qed.
-Print Assumptions C01_corr_sound.
+Theorem C01_scorch_refines_replay : forall evs s,
+  run init evs = Some s ->
+  (forall d, root_lookup (root s) d = replay (batches_of evs) d)
+  /\ (forall d, (root_live_copies (root s) d <= 1)%nat)
+  /\ (forall k, assoc_first k (internal s) = spec_internal (iops_of evs) k).
+Proof. exact scorch_refines_replay. Qed.
+Print Assumptions C01_scorch_refines_replay.
+
+Theorem C01_doc_count_spec : forall evs s,
+  run init evs = Some s ->
+  exists l, NoDup l /\ (forall d, In d l <-> replay (batches_of evs) d <> None)
+            /\ length l = root_live_count (root s).
+Proof. exact doc_count_spec. Qed.
+Print Assumptions C01_doc_count_spec.
+
+Theorem C01_batch_partition_irrelevant : forall (parts : list (list (Z * option Z))) d,
+  replay (map collapse parts) d = spec_apply_ops (concat parts) (fun _ => None) d.
+Proof. exact batch_partition_irrelevant. Qed.
+Print Assumptions C01_batch_partition_irrelevant.
+
+Theorem C01_batch_collapse : forall ops,
+  (forall d, assoc_first d (collapse ops) = assoc_first d (rev ops))
+  /\ nodupZ (map fst (collapse ops)) = true
+  /\ (forall m d, spec_apply_batch (collapse ops) m d = spec_apply_ops ops m d).
+Proof. exact batch_collapse. Qed.
+Print Assumptions C01_batch_collapse.
+
+(* the introduceMerge lemma behind I3 (DESIGN.md: merge_reapplies_deletes): in every reachable
+   state, finishing any in-flight merge changes neither the contents nor the live count *)
+Theorem C01_merge_reapplies_deletes : forall evs s k m,
+  run init evs = Some s -> nth_error (inflight s) k = Some m ->
+  (forall d, root_lookup (introduce_merge_root m (root s)) d = root_lookup (root s) d)
+  /\ root_live_count (introduce_merge_root m (root s)) = root_live_count (root s).
+Proof. exact merge_reapplies_deletes. Qed.
+Print Assumptions C01_merge_reapplies_deletes.
